@@ -411,7 +411,13 @@ class MinIriFold(Ob):
         self.name = "min_iri_fold/%s/%s" % (shared, ",".join(map(str, ks)))
 
     def build(self, ex):
-        return dict(iris=[sstr(self.shared, free(ex, "i%d" % j, k, c_iri)) for j, k in enumerate(self.ks)])
+        iris = []
+        for j, k in enumerate(self.ks):
+            cs = free(ex, "i%d" % j, k, c_iri)
+            if self.shared == "" and cs:      # an absolute IRI starts with a scheme letter
+                ex.add(z3.Or(z3.And(cs[0] >= 97, cs[0] <= 122), z3.And(cs[0] >= 65, cs[0] <= 90)))
+            iris.append(sstr(self.shared, cs))
+        return dict(iris=iris)
 
     def call(self, a):
         from shexer.core.profiling.class_profiler import ClassProfiler
@@ -598,6 +604,8 @@ def obligations(prop, tier):
             out.append(IriPattern(base, 0))
         for ks in (((1, 1), (2, 1), (1, 1, 1)) if q else ((1, 1), (2, 1), (2, 2), (1, 1, 1), (2, 2, 1), (3, 2))):
             out.append(MinIriFold("http://ex.org/i", ks))
+        for ks in (((1, 1, 1), (2, 2, 1)) if q else ((1, 1, 1), (2, 2, 1), (2, 2, 2), (1, 1, 1, 1))):
+            out.append(MinIriFold("", ks))          # instances that may share no leading character at all (urn: next to http:)
     return out
 
 
